@@ -204,6 +204,9 @@ def run_cov(case):
         rc = u.RunningCovariance()
         if case.get("feed") == "it":
             rc.update_from_it(series[0], series[1])
+        elif case.get("feed") == "it_gen":
+            # one-shot iterables (generators, map objects ...)
+            rc.update_from_it((v for v in series[0]), iter(series[1]))
         elif case.get("feed") == "it_array":
             import numpy as _np
             h_ = max(1, n // 2)
@@ -229,6 +232,8 @@ def run_cov(case):
         rcm = u.RunningCovarianceMatrix(k)
         if case.get("feed") == "it":
             rcm.update_from_it(*series)
+        elif case.get("feed") == "it_gen":
+            rcm.update_from_it(*[(v for v in s_) for s_ in series])
         elif case.get("feed") == "it_array":
             import numpy as _np
             rcm.update_from_it(*[_np.array(s_) for s_ in series])
@@ -366,7 +371,8 @@ def cov_strategy(draw):
                "mix": draw(st.sampled_from([0.0, 1.0, -1.0, 0.5, 2.0]))}
               for _ in range(k)]
     return {"series": spec, "k": k, "others": others,
-            "feed": draw(st.sampled_from(["update", "it", "it_array"])),
+            "feed": draw(st.sampled_from(["update", "it", "it_array",
+                                          "it_gen"])),
             "ties": draw(st.lists(st.tuples(st.integers(0, 199),
                                             st.integers(0, 3)).map(list),
                                   max_size=3)),
